@@ -15,12 +15,13 @@ import (
 
 // Ctx is the per-run context handed to a property's rule set.
 type Ctx struct {
-	P     *core.Prog
-	R     *core.Report
-	Tier  string
-	Repo  string
-	Verif string
-	err   *core.ErrEngine
+	armReach map[byte]map[*ssa.Function]bool
+	P        *core.Prog
+	R        *core.Report
+	Tier     string
+	Repo     string
+	Verif    string
+	err      *core.ErrEngine
 
 	evReach map[*ssa.Function]bool
 	gScope  map[*ssa.Function]bool
@@ -518,9 +519,18 @@ func failEdges(v ssa.Value) []edge {
 		}
 		seen[v] = true
 		out = append(out, nilEdges(v, false)...)
+		known := nilEdges(v, true) // where v has been found nil it does not carry a failure any more
 		for _, r := range core.Referrers(v) {
 			if ph, ok := r.(*ssa.Phi); ok {
-				walk(ph)
+				carries := false
+				for i, e := range ph.Edges {
+					if e == v && i < len(ph.Block().Preds) && !anyDominates(known, ph.Block().Preds[i]) {
+						carries = true
+					}
+				}
+				if carries {
+					walk(ph)
+				}
 			}
 		}
 	}
